@@ -1,5 +1,5 @@
-\* spec -> code (thorough): every edge out of every state reachable in <= 3 calls from every pattern of <= 4 cells over the
-\* line-focused domain (162 patterns), with the observation of every state (workers 1)
+\* spec -> code (thorough): every edge out of every state reachable in <= 3 calls from every pattern of <= 3 cells over the
+\* line-focused domain, the 4-cell patterns with the centre and <<2,-1>>, and the hand-picked family, with the observation of every state (workers 1)
 CONSTANTS Dom <- DomE  Patterns <- PatET  MaxLevel = 4  Go <- GoBounded
 ACTION_CONSTRAINT Emit
 INVARIANT EmitState
